@@ -138,7 +138,7 @@ impl Prop for C19 {
         serde_json::to_value(Case { chunks }).unwrap()
     }
     fn rule(&self) -> String {
-        "texts from line fragments over {a,é,漢,♠,space,tab} joined by LF/CRLF/lone CR, random chunkings on char boundaries (empty chunks included); every char-boundary offset and every span (s<=e) of the text is queried and compared with a naive scan (1+count of LF; chars since line start; rfind/find of LF). One evaluation = one (text,chunking) with all its offsets and spans. Non-trivial: >=2 lines and (multi-byte char or CRLF) and a query touching a line boundary/end of text (always the case since all boundaries are enumerated); distinct by (text, chunking).".into()
+        "texts from line fragments over {a,é,漢,♠,space,tab} joined by LF/CRLF/lone CR, random chunkings on char boundaries (empty chunks included); every char-boundary offset and every span (s<=e) of the text is queried (NewlineCache, the lexer's line_col/span_lines_str, LexParseError::pp, and the builders' SpannedDiagnosticFormatter::file_location_msg / underline_span_with_text) and compared with a naive scan (1+count of LF; chars since line start; rfind/find of LF; numbered source rows). One evaluation = one (text,chunking) with all its offsets and spans. Non-trivial: >=2 lines and (multi-byte char or CRLF) and a query touching a line boundary/end of text (always the case since all boundaries are enumerated); distinct by (text, chunking).".into()
     }
     fn assumptions(&self) -> Vec<String> {
         vec![
@@ -277,6 +277,8 @@ impl Prop for C19 {
         let lexerdef =
             LRNonStreamingLexerDef::<DefaultLexerTypes<u32>>::from_str("%%\n[ab]+ 'W'\n").unwrap();
         let lexer = lexerdef.lexer(&text);
+        let gpath = std::path::Path::new("g.y");
+        let fmt = lrpar::diagnostics::SpannedDiagnosticFormatter::new(&text, gpath);
         for (i, &s) in bs.iter().enumerate() {
             for &e in &bs[i..] {
                 let (exp_st, exp_ens) = ref_span_lines(&text, s, e);
@@ -301,6 +303,48 @@ impl Prop for C19 {
                                 format!(
                                     "span {s}..{e}: got ({st},{en}), expected start {exp_st}, end in {exp_ens:?}"
                                 ),
+                            );
+                            return o;
+                        }
+                    }
+                }
+                // the builders' diagnostics (error / conflict reports of the compile-time tools)
+                match catch(|| (fmt.file_location_msg("M", Some(span)), fmt.underline_span_with_text(span, "note".to_string(), '^'))) {
+                    Err(p) => {
+                        o.fail(
+                            "panic",
+                            format!("C19/diagnostics/{}", p.signature()),
+                            format!("span {s}..{e} of {text:?}: {}", p.detail()),
+                        );
+                        return o;
+                    }
+                    Ok((loc, under)) => {
+                        let (l, c) = ref_line_col(&text, s);
+                        let exp_loc = format!("M at g.y:{l}:{c}");
+                        if loc != exp_loc {
+                            o.fail("wrong", "C19/diagnostics/file_location_msg", format!("span {s}..{e} of {text:?}: got {loc:?}, expected {exp_loc:?}"));
+                            return o;
+                        }
+                        // rows "N| <source line>" for the lines the span touches, numbered from
+                        // the line of its first byte; each followed by an underline row
+                        let covered: Vec<&str> = exp_ens.iter().map(|en| &text[exp_st..*en]).collect();
+                        let ok = covered.iter().any(|cov| {
+                            let mut src_lines: Vec<&str> = cov.lines().collect();
+                            if src_lines.is_empty() {
+                                // an empty line is still a line (and carries the message)
+                                src_lines.push("");
+                            }
+                            let rows: Vec<&str> = under.split('\n').collect();
+                            // a source line may contain a lone CR but never LF
+                            rows.len() == 2 * src_lines.len()
+                                && src_lines.iter().enumerate().all(|(k, sl)| rows[2 * k] == format!("{}| {}", l + k, sl))
+                                && rows.last().map(|r| r.ends_with(" note")).unwrap_or(false)
+                        });
+                        if !ok {
+                            o.fail(
+                                "wrong",
+                                "C19/diagnostics/underline_span_with_text",
+                                format!("span {s}..{e} of {text:?}: got {under:?}, expected numbered rows from line {l} for the text {:?}", covered.first()),
                             );
                             return o;
                         }
